@@ -215,7 +215,24 @@ def gen_gas_service(repo, out):
     n = len(re.findall(r'require!\((?:gas_fee_amount|value) > 0, "Nothing received"\)', lib))
     out.append('Definition gen_gas_nonzero_checks : N := %d.' % n)
 
-EXTRA = [gen_vectors, gen_gateway, gen_token_manager, gen_gas_service]
+def gen_governance(repo, out):
+    lib = read(repo, 'governance/src/lib.rs')
+    out.append('Definition gen_gov_commands : list string := %s.' % strlist(enum_variants(lib, 'ServiceGovernanceCommand')))
+    for st in ['DecodedCallData', 'ExecutePayload', 'EgldOrEsdtToken']:
+        body = need(re.search(r'pub struct %s<M: ManagedTypeApi> \{(.*?)\}' % st, lib, re.S), f'struct {st}').group(1)
+        out.append('Definition gen_gov_%s_fields : list string := %s.' % (st, strlist(re.findall(r'pub (\w+):', body))))
+    for c in ['EXECUTE_PROPOSAL_CALLBACK_GAS', 'EXECUTE_PROPOSAL_CALLBACK_GAS_PER_PAYMENT', 'KEEP_EXTRA_GAS']:
+        m = need(re.search(r'const %s: u64 = ([0-9_]+);' % c, lib), c)
+        out.append('Definition gen_gov_%s : N := %d.' % (c, const_expr(m.group(1))))
+    eps = [e for e in endpoint_table(lib) if not e[3]]
+    out.append('Definition gen_gov_endpoints : list (string * string) := [%s]%%string.' % '; '.join('("%s", "%s")' % (n, p) for n, p, _, _ in eps))
+    out.append('Definition gen_gov_storage : list string := %s.' % strlist(storage_mappers(lib)))
+    out.append('Definition gen_gov_events : list string := %s.' % strlist(events(read(repo, 'governance/src/events.rs'))))
+    # proposal hash = keccak(target ++ call_data ++ native_value), nested encodings, in this order
+    m = need(re.search(r'fn get_proposal_hash\(.*?\{(.*?)self\.crypto\(\)\.keccak256\(encoded\)', lib, re.S), 'get_proposal_hash').group(1)
+    out.append('Definition gen_gov_proposal_hash_order : list string := %s.' % strlist(re.findall(r'(\w+)\s*\.dep_encode', m)))
+
+EXTRA = [gen_vectors, gen_gateway, gen_token_manager, gen_gas_service, gen_governance]
 
 if __name__ == '__main__':
     main()
